@@ -3160,7 +3160,9 @@ class Function(Term):
                     raise SyntaxError(f"mismatching parentheses in: {formula}")
 
             elif element and element.is_operator():
-                while stack and stack[-1] in factory.objects:
+                # a prefix (unary) operator has no left operand: the operators already on the stack
+                # are still waiting for the operand that this operator starts, so none is popped
+                while element.arity > 1 and stack and stack[-1] in factory.objects:
                     top = factory.objects[stack[-1]]
                     if (element.associativity < 0 and element.precedence <= top.precedence) or (
                         element.associativity > 0 and element.precedence < top.precedence
